@@ -1,4 +1,5 @@
 import QeepProps.C13x
 import QeepProps.C13z
+import QeepProps.C13w
 /-! C13 — all property theorems: `C13`, `C13x` (local backward passes of MSE / BCE / CE) and `C13z` (MSE end to end: the
-gradient `BackPropagate` stores on the prediction). -/
+gradient `BackPropagate` stores on the prediction). `C13w` (`mse_backprop_leaf`: for a leaf prediction `BackPropagate` succeeds, unconditionally, and stores `2(p−t)/n`). -/
